@@ -50,6 +50,15 @@ func c17Err(err error) string {
 	case errors.Is(err, singleapp.ErrIllegalArguments), errors.Is(err, multiapp.ErrIllegalArguments):
 		return "err:illegal"
 	}
+	var pe *os.PathError
+	if errors.As(err, &pe) {
+		switch pe.Op {
+		case "sync":
+			return "err:sync"
+		case "write":
+			return "err:write"
+		}
+	}
 	return "err:other:" + strings.ReplaceAll(err.Error(), " ", "_")
 }
 
@@ -57,6 +66,8 @@ type c17Replay struct {
 	Kind string   `json:"kind"`
 	Ops  []string `json:"ops"`
 	Note string   `json:"note,omitempty"`
+	// the case was run against the byte-array oracle only (it contains fault ops the Lean mirror does not model)
+	NoModel bool `json:"no_model,omitempty"`
 }
 
 type c17Entry struct {
@@ -106,10 +117,20 @@ type c17Case struct {
 	tail      bool  // generator profile "buffer tail": small appends that stay in the write buffer, frequent Flush
 	                // WITHOUT Sync, rewinds and reads aimed at the last buffer-full of bytes
 
+	// ---- fault injection (c17fault.go) ----
+	noModel       bool  // oracle-only case: it contains faults the Lean mirror does not model (short writes, faults inside Append)
+	syncMark      int64 // lower bound of the offset at which the write buffer starts: the oracle's size at the last successful
+	                    // Sync/(re)open, lowered by rewinds, raised to the last chunk boundary (multiapp)
+	fsDirty       bool  // an fsync failed under retryable sync since the last (re)open while the file held bytes at or after fsFloor
+	fsFloor       int64 // lowest such syncMark
+	faultedAppend bool  // the Append being judged ran inside a fault window
+	faultPct      int   // generator: percentage of fault bursts among the ops (0: none)
+	createFailed  bool  // the creation of the next chunk file failed (injected) and corrupted the handle: see c17ProbeChunkCreateFail
+
 	ops []string
 }
 
-func (c *c17Case) corr() bool { return c.comp == appendable.NoCompression }
+func (c *c17Case) corr() bool { return c.comp == appendable.NoCompression && !c.noModel }
 
 func (c *c17Case) replay() c17Replay {
 	ops := c.ops
@@ -118,7 +139,7 @@ func (c *c17Case) replay() c17Replay {
 		note = fmt.Sprintf("first %d ops omitted", len(ops)-600)
 		ops = append([]string{ops[0]}, ops[len(ops)-599:]...)
 	}
-	return c17Replay{Kind: "c17-ops", Ops: ops, Note: note}
+	return c17Replay{Kind: "c17-ops", Ops: ops, Note: note, NoModel: c.noModel}
 }
 
 func (c *c17Case) fail(site, class, desc string) {
@@ -225,6 +246,7 @@ func (c *c17Case) exec(line string) (ans string, err error) {
 			c.preFloor = sz
 		}
 		c.hdr, c.flushMark = c.measureHeader(sz), sz
+		c.noteSyncPoint(sz)
 		r.OracleChecks++
 		want := int64(0)
 		if c.kind == "s" {
@@ -242,6 +264,17 @@ func (c *c17Case) exec(line string) (ans string, err error) {
 		off, n, e := c.app.Append(bs)
 		ans = fmt.Sprintf("%d %d %s", off, n, c17Err(e))
 		c.oracleAppend(bs, before, off, n, e)
+		c.noteAppended()
+	case "syncfail", "rofail", "flushfail", "syncwfail", "flushshort", "syncshort", "appendwfail", "appendsfail", "appendcfail":
+		if c17OracleOnlyOp(op) && c.corr() {
+			return "", fmt.Errorf("oracle-only fault op %q in a case that is compared with the model", line)
+		}
+		var ferr error
+		ans, post, ferr = c.execFault(op, tk)
+		if ferr != nil {
+			return "", ferr
+		}
+		c.noteAppended()
 	case "read":
 		off, _ := strconv.ParseInt(tk[2], 10, 64)
 		var bs []byte
@@ -291,6 +324,9 @@ func (c *c17Case) exec(line string) (ans string, err error) {
 		c.expectErr(strings.ToUpper(op[:1])+op[1:], ans, c.stdErr(true))
 		if e == nil {
 			c.flushMark = c.size()
+			if op == "sync" {
+				c.noteSyncPoint(c.size())
+			}
 		}
 	case "ro":
 		e := c.app.SwitchToReadOnlyMode()
@@ -350,8 +386,13 @@ func (c *c17Case) exec(line string) (ans string, err error) {
 			c.cap, c.maxOpen, c.retry, c.auto, ro = c17atoi(tk[1]), c17atoi(tk[2]), tk[3] == "1", tk[4] == "1", tk[5] == "1"
 		}
 		if err := c.open(ro); err != nil {
-			c.fail("reopen", "open-failed", err.Error())
-			return "", err
+			cls := "open-failed"
+			if c.createFailed {
+				cls = "unopenable-after-failed-chunk-creation"
+			}
+			c.fail("reopen", cls, err.Error())
+			// the failure is recorded; only this case ends here
+			return "", fmt.Errorf("%w: %s: %v", errC17Abort, line, err)
 		}
 		sz, e := c.app.Size()
 		if e != nil {
@@ -361,6 +402,8 @@ func (c *c17Case) exec(line string) (ans string, err error) {
 		c.closed, c.readOnly = false, ro
 		c.oracleReopenSize("reopen", c.app, sz)
 		c.flushMark = sz
+		c.noteSyncPoint(sz)
+		c.fsDirty = false
 		if c.kind == "m" && c.prealloc != 0 {
 			c.preFloor = sz
 		}
@@ -543,6 +586,9 @@ func (c *c17Case) expectErr(site, got, want string) {
 func (c *c17Case) oracleAppend(bs []byte, before, off int64, n int, e error) {
 	c.r.OracleChecks++
 	got := c17Err(e)
+	if c.faultedAppend {
+		got = c17FaultErr(e)
+	}
 	if c.broken {
 		return
 	}
@@ -556,16 +602,20 @@ func (c *c17Case) oracleAppend(bs []byte, before, off int64, n int, e error) {
 		}
 		return
 	}
-	if got == "err:bufferfull" && c.retry && !c.auto {
-		// documented: with retryableSync and no autoSync the caller must Sync; a prefix may have been taken
-		c.r.Count("append.bufferfull")
+	if (got == "err:bufferfull" && c.retry && !c.auto) || (c.faultedAppend && (got == "err:write" || got == "err:sync")) {
+		// documented: with retryableSync and no autoSync the caller must Sync; a prefix may have been taken.
+		// Likewise when the flush / auto-sync inside Append fails (injected): the n bytes copied so far stay appended.
+		c.r.Count("append." + got[4:])
 		sz, _ := c.app.Size()
 		m := sz - before
 		if m < 0 || m > int64(len(bs)) || (c.kind == "s" && m != int64(n)) || int64(n) > m {
 			c.fail("Append", "bufferfull-accounting", fmt.Sprintf("ErrBufferFull: n=%d, size moved by %d for %d bytes", n, m, len(bs)))
 			m = 0
 		}
-		c.lastBufferFull = true
+		c.lastBufferFull = got == "err:bufferfull"
+		if off != before && (c.kind == "s" || n > 0) {
+			c.fail("Append", "offset-not-previous-size", fmt.Sprintf("Append (%s after n=%d) returned offset %d, previous size %d", got, n, off, before))
+		}
 		if c.comp != 0 {
 			c.broken = true // a partially written compressed entry is garbage (not generated: see genNew)
 			return
@@ -638,6 +688,9 @@ func (c *c17Case) classifyRead(bs []byte, off int64, n int, got string) (string,
 	if c.preFloor >= 0 && (lim < 0 || c.preFloor < lim) {
 		lim = c.preFloor
 	}
+	if c.fsDirty && (lim < 0 || c.fsFloor < lim) {
+		lim = c.fsFloor
+	}
 	if lim < 0 {
 		return "wrong-bytes", desc
 	}
@@ -655,6 +708,14 @@ func (c *c17Case) classifyRead(bs []byte, off int64, n int, got string) (string,
 	}
 	if c.dirty && off+int64(len(bs)) > c.rwFloor {
 		return "stale-bytes-after-rewind", desc + fmt.Sprintf(" (rewound to %d earlier; the file part of a read is not bounded by the logical end)", c.rwFloor)
+	}
+	if c.fsDirty && off+int64(len(bs)) > c.fsFloor {
+		// the misplaced bytes come from the write buffer, appended where the physical file ends: a read that stays
+		// inside the physical file cannot show the defect
+		if pe := c.physEnd(); pe >= 0 && off+int64(len(bs)) <= pe {
+			return "wrong-bytes", desc
+		}
+		return "misplaced-bytes-after-failed-sync", desc + fmt.Sprintf(" (an fsync failed earlier under retryable sync: fileOffset went back to the start of the write buffer, >= %d, while the file keeps the flushed bytes; the file part of a read is not bounded by fileOffset, so the read runs to the physical end and continues with the buffer from ITS start)", c.fsFloor)
 	}
 	return "stale-bytes-prealloc", desc + fmt.Sprintf(" (preallocated chunk files: the zero-filled tail of the current chunk is served instead of the buffered bytes / EOF; chunks after offset %d)", c.preFloor)
 }
@@ -684,6 +745,7 @@ func (c *c17Case) oracleRead(site string, bs []byte, off int64, n int, e error) 
 		}
 		c.data = append(make([]byte, off), bs[:n]...)
 		c.dirty, c.broken = false, false
+		c.noteSyncPoint(int64(len(c.data)))
 		return
 	}
 	vd := c.verifyDiscard
@@ -736,7 +798,7 @@ func (c *c17Case) oracleRead(site string, bs []byte, off int64, n int, e error) 
 	}
 	c.r.Count("read.deviates." + cls)
 	switch {
-	case cls == "stale-bytes-after-rewind" || cls == "stale-bytes-prealloc":
+	case cls == "stale-bytes-after-rewind" || cls == "stale-bytes-prealloc" || cls == "misplaced-bytes-after-failed-sync":
 		c.fail("ReadAt", cls, desc) // (also when observed through appendable.Reader or the post-discard sweep)
 	case vd >= 0:
 		c.fail("DiscardUpto", "bytes-at-or-after-offset-affected", fmt.Sprintf("after DiscardUpto(%d): %s: %s", vd, cls, desc))
@@ -873,6 +935,9 @@ func (c *c17Case) oracleSetOffset(off int64, got string, behind bool) bool {
 		}
 	} else {
 		c.data = c.data[:off]
+	}
+	if off < c.syncMark {
+		c.syncMark = off
 	}
 	if !behind {
 		// nothing at or after the target has reached the file system: the rewind happened inside the write buffer
@@ -1108,6 +1173,9 @@ func (c *c17Case) genOp(rng *hx.Rng, thorough bool) []string {
 		default:
 			p = 90 // close
 		}
+	}
+	if c.faultPct > 0 && !c.readOnly && rng.Chance(c.faultPct) {
+		return c.genFault(rng)
 	}
 	if c.tail && !c.readOnly && rng.Chance(80) {
 		return c.genOpTail(rng)
@@ -1414,13 +1482,14 @@ func (c *c17Case) cleanup() {
 }
 
 // a scripted case (known-finding probes, replays)
-func c17Script(r *hx.Result, ops []string, recorded bool) error {
+func c17Script(r *hx.Result, ops []string, recorded, noModel bool) error {
 	if len(ops) == 0 {
 		return nil
 	}
 	r.NextCase()
 	c := newC17Case(r, ops[0][:1])
 	c.noPost = recorded
+	c.noModel = noModel
 	defer c.cleanup()
 	for _, l := range ops {
 		if _, err := c.exec(l); err != nil {
@@ -1434,14 +1503,27 @@ var c17LastNew string
 var c17Trace = os.Getenv("VERIF_C17_TRACE") != ""
 
 func c17RandomCase(r *hx.Result, rng *hx.Rng, kind string, comp int, nops int, thorough bool) error {
-	return c17Done(c17RandomCase1(r, rng, kind, comp, nops, thorough))
+	return c17Done(c17RandomCase1(r, rng, kind, comp, nops, thorough, false))
 }
 
-func c17RandomCase1(r *hx.Result, rng *hx.Rng, kind string, comp int, nops int, thorough bool) error {
+// oracle-only case with a high rate of injected faults, incl. those the Lean mirror does not model
+func c17FaultCase(r *hx.Result, rng *hx.Rng, kind string, nops int, thorough bool) error {
+	return c17Done(c17RandomCase1(r, rng, kind, 0, nops, thorough, true))
+}
+
+func c17RandomCase1(r *hx.Result, rng *hx.Rng, kind string, comp int, nops int, thorough bool, noModel bool) error {
 	r.NextCase()
 	c := newC17Case(r, kind)
 	defer c.cleanup()
 	c.tail = comp == 0 && rng.Chance(35)
+	c.noModel = noModel
+	if fs, wr, _ := c17FaultSelfTest(); comp == 0 && (fs || wr) {
+		c.faultPct = 5
+		if noModel {
+			c.faultPct = 25
+			r.Count("case.oracle-only-faults")
+		}
+	}
 	if _, err := c.exec(c.genNew(rng, comp)); err != nil {
 		return err
 	}
@@ -1522,6 +1604,9 @@ func c17RandomCase1(r *hx.Result, rng *hx.Rng, kind string, comp int, nops int, 
 // on a small buffer is covered in every run.
 var c17ScopeAlphabet = []string{"a1", "a3", "f", "s", "r1", "r3"}
 
+// the fault alphabet: x = Sync with a failing fsync (after an un-faulted Flush), w = Flush while every write fails
+var c17FaultAlphabet = []string{"a1", "a3", "f", "s", "r1", "x", "w"}
+
 func c17ScopeWord(r *hx.Result, rng *hx.Rng, word []string) error {
 	return c17Done(c17ScopeWord1(r, rng, word))
 }
@@ -1577,6 +1662,10 @@ func c17ScopeWord1(r *hx.Result, rng *hx.Rng, word []string) error {
 			l = kind + ".flush"
 		case "s":
 			l = kind + ".sync"
+		case "x":
+			l = kind + ".syncfail"
+		case "w":
+			l = kind + ".flushfail"
 		case "r1":
 			l = back(1)
 		case "r3":
@@ -1598,7 +1687,8 @@ func c17ScopeWord1(r *hx.Result, rng *hx.Rng, word []string) error {
 	return nil
 }
 
-func c17SmallScope(r *hx.Result, rng *hx.Rng, length int) error {
+func c17SmallScope(r *hx.Result, rng *hx.Rng, alphabet []string, length int) error {
+	c17ScopeAlphabet := alphabet
 	n := len(c17ScopeAlphabet)
 	total := 1
 	for i := 0; i < length; i++ {
@@ -1620,7 +1710,7 @@ func c17SmallScope(r *hx.Result, rng *hx.Rng, length int) error {
 			}
 		}
 	}
-	r.CountN("scope.words", total)
+	r.CountN(fmt.Sprintf("scope.words.alphabet%d", n), total)
 	return r.Flush()
 }
 
@@ -1832,8 +1922,39 @@ var c17ProbePrealloc = []string{
 	"m.read 8 10", // 8 bytes, no EOF (size is 15)
 }
 
+// known finding (reachable with fault injection only; Lean witness readAt_after_failed_sync_witness): retryable sync,
+// the fsync fails once — fileOffset goes back to 3 while the file holds 6 bytes; with two more bytes in the buffer a
+// read of the whole log returns 01..06 04 05 (the file part runs to the physical end, then the buffer from its start).
+var c17ProbeFailedSync = []string{
+	"s.new 8 1 1 0 - 0",
+	"s.append 010203",
+	"s.sync",
+	"s.append 040506",
+	"s.syncfail",
+	"s.append 0708",
+	"s.read 8 0", // 0102030405060405
+	"s.sync",     // the retry succeeds
+	"s.read 8 0", // exact again
+	"s.close",
+	"s.reopen 8 1 1 0",
+}
+
+var c17ProbeFailedSyncMulti = []string{
+	"m.new 16 8 2 1 1 0 - 0",
+	"m.append 010203",
+	"m.sync",
+	"m.append 040506",
+	"m.syncfail",
+	"m.append 0708",
+	"m.read 8 0",
+	"m.sync",
+	"m.read 8 0",
+	"m.close",
+	"m.reopen 8 2 1 1 0",
+}
+
 func runC17(r *hx.Result, rng *hx.Rng, thorough bool, replay string) error {
-	r.Rule = "cases: all 1296 words of length 4 over {append 1, append 3, flush, sync, setOffset(size-1), setOffset(size-3)} on an 8|4|64-byte write buffer with a fixed observing epilogue (small-scope enumeration), then random operation sequences (append/read/reader/setOffset/flush/sync/discardUpto/switchReadOnly/close/reopen/copy/size/metadata; 35% of the cases in the 'buffer tail' profile: appends that stay in the write buffer, Flush without Sync, rewinds/reads aimed at the buffered tail) on real singleapp and multiapp instances in temp dirs × options (write buffer 1..64|4096, chunk size 1..64|default, maxOpenedFiles 1..3|10, retryable/auto sync, prealloc, compression none for the model stream and flate/gzip/lzw/zlib for the oracle-only stream). An evaluation is one read compared with the byte-array oracle; non-trivial when it has a non-empty range; distinct by (kind, chunk size, offset, length, size)."
+	r.Rule = "cases: all 1296 words of length 4 over {append 1, append 3, flush, sync, setOffset(size-1), setOffset(size-3)} on an 8|4|64-byte write buffer with a fixed observing epilogue (small-scope enumeration), then random operation sequences (append/read/reader/setOffset/flush/sync/discardUpto/switchReadOnly/close/reopen/copy/size/metadata; 35% of the cases in the 'buffer tail' profile: appends that stay in the write buffer, Flush without Sync, rewinds/reads aimed at the buffered tail) on real singleapp and multiapp instances in temp dirs × options (write buffer 1..64|4096, chunk size 1..64|default, maxOpenedFiles 1..3|10, retryable/auto sync, prealloc, compression none for the model stream and flate/gzip/lzw/zlib for the oracle-only stream). FAULT INJECTION on the real code (c17fault.go): all 343 words of length 3 over {append 1, append 3, flush, sync, setOffset(size-1), syncfail = Sync with a failing fsync (/dev/null dup3-ed over the descriptor of the writing file for the one call, after an un-faulted Flush), flushfail = Flush while every content write fails (RLIMIT_FSIZE at the header length)} with the same epilogue (append, read all, retry Sync, read all, Close, re-Open, sweep); 5% of the ops of the random uncompressed cases are fault bursts (syncfail / rofail / flushfail / syncwfail followed by retries, appends, reads across the rolled-back stretch, rewinds into it, close+reopen), each followed by Offset(), Size() and a read of the last two buffer-fulls; 40 oracle-only cases with 25% fault bursts incl. short writes (RLIMIT_FSIZE inside the pending range) and write/fsync failures inside Append. An evaluation is one read compared with the byte-array oracle; non-trivial when it has a non-empty range; distinct by (kind, chunk size, offset, length, size)."
 	if replay != "" {
 		b, err := os.ReadFile(replay)
 		if err != nil {
@@ -1845,13 +1966,30 @@ func runC17(r *hx.Result, rng *hx.Rng, thorough bool, replay string) error {
 		if err := json.Unmarshal(b, &f); err != nil {
 			return err
 		}
-		if err := c17Script(r, f.Replay.Ops, true); err != nil {
+		if err := c17Script(r, f.Replay.Ops, true, f.Replay.NoModel); err != nil {
 			return err
 		}
 		return r.Flush()
 	}
-	for _, p := range [][]string{c17ProbeF2, c17ProbeStaleTail, c17ProbeMulti, c17ProbePrealloc, c17ProbeF2Compressed} {
-		if err := c17Script(r, p, false); err != nil {
+	fsyncOK, writeOK, fnote := c17FaultSelfTest()
+	r.Notes = append(r.Notes, fnote)
+	if !(fsyncOK && writeOK) {
+		// not an error of the code under test: the run continues without the fault histories it cannot produce on this
+		// platform, and the evidence says so (counter + note) instead of raising an alarm
+		r.Count("fault-injection.unavailable")
+		r.Notes = append(r.Notes, "REDUCED COVERAGE: fault injection (failing fsync / failing write) is not available on this platform: "+fnote)
+	}
+	probes := [][]string{c17ProbeF2, c17ProbeStaleTail, c17ProbeMulti, c17ProbePrealloc, c17ProbeF2Compressed}
+	if fsyncOK {
+		probes = append(probes, c17ProbeFailedSync, c17ProbeFailedSyncMulti)
+	}
+	for _, p := range probes {
+		if err := c17Script(r, p, false, false); err != nil {
+			return err
+		}
+	}
+	if writeOK {
+		if err := c17Script(r, c17ProbeChunkCreateFail, false, true); err != nil {
 			return err
 		}
 	}
@@ -1863,6 +2001,7 @@ func runC17(r *hx.Result, rng *hx.Rng, thorough bool, replay string) error {
 		r.Notes = append(r.Notes, fmt.Sprintf("phase %s done at %.1fs", name, time.Since(t0).Seconds()))
 	}
 	nS, nM, nZ, nops, nConc := 200, 240, 96, 70, 4
+	nF := 40 // oracle-only cases with short writes and faults inside Append
 	scopeLen := 4
 	if ph := os.Getenv("VERIF_C17_PHASES"); ph != "" { // debugging aid: e.g. "z" runs only the compressed stream
 		if !strings.Contains(ph, "s") {
@@ -1877,12 +2016,16 @@ func runC17(r *hx.Result, rng *hx.Rng, thorough bool, replay string) error {
 		if !strings.Contains(ph, "c") {
 			nConc = 0
 		}
+		if !strings.Contains(ph, "f") {
+			nF = 0
+		}
 		if !strings.Contains(ph, "w") {
 			scopeLen = 0
 		}
 	}
 	if thorough {
 		nS, nM, nZ, nops, nConc = 1200, 1800, 500, 140, 24
+		nF = 300
 	}
 	if scopeLen > 0 {
 		passes := 1
@@ -1890,11 +2033,20 @@ func runC17(r *hx.Result, rng *hx.Rng, thorough bool, replay string) error {
 			passes = 3 // the same words under other draws of (kind, sync mode, buffer, chunk size)
 		}
 		for i := 0; i < passes; i++ {
-			if err := c17SmallScope(r, rng.Fork(), scopeLen); err != nil {
+			if err := c17SmallScope(r, rng.Fork(), c17ScopeAlphabet, scopeLen); err != nil {
 				return err
 			}
 		}
 		phase("small-scope")
+		if fsyncOK && writeOK {
+			// every word of length 3 over the fault alphabet, same observing epilogue (incl. the retry Sync, Close, re-Open)
+			for i := 0; i < passes; i++ {
+				if err := c17SmallScope(r, rng.Fork(), c17FaultAlphabet, 3); err != nil {
+					return err
+				}
+			}
+			phase("small-scope-faults")
+		}
 	}
 	for i := 0; i < nS; i++ {
 		if err := c17RandomCase(r, rng.Fork(), "s", 0, 10+rng.Intn(nops), thorough); err != nil {
@@ -1933,6 +2085,16 @@ func runC17(r *hx.Result, rng *hx.Rng, thorough bool, replay string) error {
 		}
 	}
 	phase("compressed")
+	for i := 0; i < nF && (fsyncOK || writeOK); i++ {
+		kind := "s"
+		if i%2 == 1 {
+			kind = "m"
+		}
+		if err := c17FaultCase(r, rng.Fork(), kind, 10+rng.Intn(nops), thorough); err != nil {
+			return err
+		}
+	}
+	phase("oracle-only-faults")
 	for i := 0; i < nConc; i++ {
 		kind := "s"
 		if i%2 == 1 {
